@@ -17,7 +17,8 @@ RULE = (
     "history shrinks as one value. Invariant after every step: get_backend() reflects the last switch; an "
     "evaluated object equals an object freshly constructed *now* from the same inputs (bit for bit at "
     "64-bit, 16 eps32 scale at 32-bit) and returns the current backend's tensor type and dtype; a fit on "
-    "the old object agrees with a fit on the fresh one; after deletions no dead reference is left in the "
+    "the old object agrees with a fit on the fresh one to 1e-10 relative (same deterministic optimiser, same "
+    "function; 32-bit fits on numpy and jax; fit-heavy shards alternate {jax, numpy} x {32b, 64b}); after deletions no dead reference is left in the "
     "event callback lists and switches raise nothing. Non-trivial: >=2 real switches with an evaluated "
     "object older than the last switch, or a deletion before a switch; distinct by the (op, backend) sequence."
 )
